@@ -45,7 +45,9 @@ func simplifySpecs(thorough bool) []composeSpec {
 			}},
 		{typ: "DouglasPeuckerSimplifier", vars: 1, labels: []string{""},
 			build: func(it *Interp, s *State, ctx *simplifyCtx, _ int) AV {
-				return PtrV{Cell: it.newCell(s, StructV{Fields: []AV{it.freeFloat()}})}
+				thr := it.freeFloat()
+				ctx.thr, _ = atomOf(it.termOf(thr.(FloatV)))
+				return PtrV{Cell: it.newCell(s, StructV{Fields: []AV{thr}})}
 			}},
 		{typ: "VisvalingamSimplifier", vars: 6, labels: []string{"default minimum", "keep 2", "keep 3", "keep 5", "VisvalingamKeep(2)", "VisvalingamKeep(3)"},
 			build: func(it *Interp, s *State, ctx *simplifyCtx, v int) AV {
@@ -184,6 +186,83 @@ func simplifySpecs(thorough bool) []composeSpec {
 					return ""
 				}
 			}
+			if d.typ == "DouglasPeuckerSimplifier" {
+				// the error bound: every vertex dropped between two neighbours of the result was measured against
+				// the segment joining them, and the path's comparisons put that (squared) distance at or below
+				// the squared threshold; every interior vertex kept was measured above it against some segment
+				j = func(it *Interp, cx interface{}, st *State) string {
+					if why := judge(it, cx, st); why != "" {
+						return why
+					}
+					ctx := cx.(*simplifyCtx)
+					n := len(ctx.ids)
+					if n <= 2 || ctx.thr == 0 {
+						return ""
+					}
+					res := st.result[0].(SliceV)
+					arr := st.heap[res.Arr].(ArrV)
+					// positions kept (same matching as the subsequence test)
+					var kept []int
+					pos := 0
+					outs := arr.Elems[res.Lo:res.Hi]
+					for k, o := range outs {
+						if k == len(outs)-1 {
+							kept = append(kept, n-1)
+							break
+						}
+						for pos < n-1 && ctx.ids[pos] != identString(o) {
+							pos++
+						}
+						kept = append(kept, pos)
+						pos++
+					}
+					thr2 := termMul(termAtom(ctx.thr), termAtom(ctx.thr))
+					g := pathOrderTerms(it, st)
+					measured := func(a, b, k int) []*fterm {
+						var out []*fterm
+						for _, ev := range eventsOf(st, "planar.DistanceFromSegmentSquared") {
+							if len(ev.Args) == 3 && identString(ev.Args[0]) == ctx.ids[a] && identString(ev.Args[1]) == ctx.ids[b] && identString(ev.Args[2]) == ctx.ids[k] {
+								if t := floatTerm(it, ev.Out[0]); t != nil {
+									out = append(out, t)
+								}
+							}
+						}
+						return out
+					}
+					for x := 0; x+1 < len(kept); x++ {
+						a, b := kept[x], kept[x+1]
+						for k := a + 1; k < b; k++ {
+							ds := measured(a, b, k)
+							if len(ds) == 0 {
+								return fmt.Sprintf("vertex %d is dropped between the kept vertices %d and %d, but its distance from the segment joining them was never measured", k, a, b)
+							}
+							within := false
+							for _, d := range ds {
+								if g.leq(d, thr2) {
+									within = true
+								}
+							}
+							if !within {
+								return fmt.Sprintf("vertex %d is dropped between the kept vertices %d and %d, but nothing on this path puts its squared distance from that segment at or below the squared threshold", k, a, b)
+							}
+						}
+					}
+					for _, k := range kept[1 : len(kept)-1] {
+						beyond := false
+						for _, ev := range eventsOf(st, "planar.DistanceFromSegmentSquared") {
+							if len(ev.Args) == 3 && identString(ev.Args[2]) == ctx.ids[k] {
+								if t := floatTerm(it, ev.Out[0]); t != nil && g.less(thr2, t) {
+									beyond = true
+								}
+							}
+						}
+						if !beyond {
+							return fmt.Sprintf("vertex %d is kept, but nothing on this path puts it farther than the threshold from a segment it was measured against", k)
+						}
+					}
+					return ""
+				}
+			}
 			if d.typ == "RadialSimplifier" {
 				j = func(it *Interp, cx interface{}, st *State) string {
 					if why := judge(it, cx, st); why != "" {
@@ -220,7 +299,7 @@ func simplifySpecs(thorough bool) []composeSpec {
 			}
 			specs = append(specs, composeSpec{
 				entry:   "simplify.(*" + d.typ + ")." + kind,
-				desc:    "the result is a subsequence of the input in order that keeps the first and the last vertex (at least two vertices, so a closed ring stays closed); radial: neighbours other than the last were measured farther apart than the threshold; Visvalingam: never fewer than the minimum count",
+				desc:    "the result is a subsequence of the input in order that keeps the first and the last vertex (at least two vertices, so a closed ring stays closed); Douglas-Peucker: every dropped vertex was measured against the segment joining its kept neighbours and found within the threshold, every kept interior vertex was measured beyond it; radial: neighbours other than the last were measured farther apart than the threshold; Visvalingam: never fewer than the minimum count",
 				terms:   true,
 				oracles: oracles,
 				cases:   cases,
